@@ -248,7 +248,8 @@ pub fn apply_ops<T: HLabel>(nwl: bool, ops: &[Op<T>]) -> Result<AAFramework<T>, 
     for (i, op) in ops[start..].iter().enumerate() {
         // the framework is *looked at* while it is being built (read-only public observers, the
         // grounded extension among them): whatever an observer computes must not survive the next update
-        if i % 4 == 1 || i + 1 == n_ops {
+        let _ = n_ops;
+        if i % 4 == 1 || matches!(op, Op::DelAtt(..) | Op::DelArg(_)) {
             let _ = af.grounded_extension();
             let _ = af.n_attacks();
             let _ = af.iter_attacks().count();
@@ -397,7 +398,26 @@ fn plain_ops<L: HLabel>(abs: &Abs, labels: &[L], rng: &mut Rng, repeat_attacks: 
     for (a, b) in atts {
         ops.push(Op::AddAtt(labels[a].clone(), labels[b].clone()));
     }
+    if rng.pct(30) {
+        detour(abs, labels, rng, &mut ops);
+    }
     ops
+}
+
+/// A detour at the end of a history: one real attack a->b is replaced by b->a and put back, so that
+/// the framework passes through a *different* framework with the same numbers of arguments and
+/// attacks (and is observed there, see `apply_ops`) two updates before it is complete.
+fn detour<L: HLabel>(abs: &Abs, labels: &[L], rng: &mut Rng, ops: &mut Vec<Op<L>>) {
+    let real: std::collections::BTreeSet<(usize, usize)> = abs.att.iter().copied().collect();
+    let cands: Vec<(usize, usize)> = real.iter().copied().filter(|(a, b)| a != b && !real.contains(&(*b, *a))).collect();
+    if cands.is_empty() {
+        return;
+    }
+    let (a, b) = *rng.pick(&cands);
+    ops.push(Op::DelAtt(labels[a].clone(), labels[b].clone()));
+    ops.push(Op::AddAtt(labels[b].clone(), labels[a].clone()));
+    ops.push(Op::DelAtt(labels[b].clone(), labels[a].clone()));
+    ops.push(Op::AddAtt(labels[a].clone(), labels[b].clone()));
 }
 
 fn sparse_ops<L: HLabel>(abs: &Abs, labels: &[L], junk: &[L], rng: &mut Rng) -> Vec<Op<L>> {
@@ -459,6 +479,9 @@ fn sparse_ops<L: HLabel>(abs: &Abs, labels: &[L], junk: &[L], rng: &mut Rng) -> 
         for (a, b) in inc {
             ops.push(Op::AddAtt(lab(a), lab(b)));
         }
+    }
+    if rng.pct(50) {
+        detour(abs, labels, rng, &mut ops);
     }
     ops
 }
